@@ -129,6 +129,40 @@ def build_request(p, sc_id=None):
                   "deps": deps[fid], "prio": t.get("prio"), "start": ov.get("start", t.get("start")),
                   "stop": ov.get("end", t.get("end")), "milestone": bool(t.get("milestone")),
                   "mode": None if not t.get("mode") else (t["mode"] == "asap"), "limits": lims})
+    # horizon extension: the code evaluates `int((effort_s / 21600 + gap_s / 86400) * 1.5) + 7` in doubles;
+    # where that differs from exact arithmetic the case is a float boundary (not compared)
+    eff_eff, eff_deps = {}, {}
+    for i, (fid, t, par, _) in enumerate(tasks):
+        own_e = T[i]["effort"]
+        eff_eff[fid] = own_e if own_e is not None else (eff_eff.get(par) if par is not None else None)
+        eff_deps[fid] = deps[fid] if deps[fid] else (eff_deps.get(par, []) if par is not None else [])
+    leaves_ = [fid for fid, t, par, _ in tasks if A.is_leaf(t)]
+    tot_e_f, tot_g_f = 0.0, 0.0
+    tot_e_x, tot_g_x = Fraction(0), Fraction(0)
+    for fid in leaves_:
+        e_ = eff_eff[fid]
+        if e_ is not None and e_[0] != 0:
+            ex = Fraction(e_[0], e_[1])
+            tot_e_x += ex * 3600
+            node = dict((f, t) for f, t, _, _ in tasks)[fid]
+            # the float the parser produced: float(num) * multiplier of the effective effort
+            src = None
+            x = fid
+            nodes_ = dict((f, t) for f, t, _, _ in tasks)
+            while src is None and x is not None:
+                ov = (nodes_[x].get("sc") or {}).get(sc_id, {}) if sc_id else {}
+                src = ov.get("effort", nodes_[x].get("effort"))
+                x = x.rsplit(".", 1)[0] if "." in x else None
+            mult = {"d": 8, "w": 40, "h": 1, "m": 1 / 60, "y": 2080, "min": 1 / 60}[src[1]]
+            tot_e_f += (float(src[0]) * mult) * 3600
+        for d in eff_deps[fid]:
+            if d["opts"] and d["gap"]:
+                tot_g_f += d["gap"]
+                tot_g_x += d["gap"]
+    days_f = int((tot_e_f / (6 * 3600) + tot_g_f / 86400) * 1.5) + 7
+    days_x = ((tot_e_x / 21600 + tot_g_x / 86400) * Fraction(3, 2)).__floor__() + 7
+    if days_f != days_x and leaves_:
+        raise FloatBoundary("horizon days")
     gv = [day_iv(a, b) for (a, b) in p.get("vacations") or []]
     gl = [[a, b if b is not None else a + 86400] for (_ty, a, b) in p.get("leaves") or []]
     return {"op": "sched", "G": G, "start": p["start"], "end": A.end_of(p), "projAlap": p.get("sched") == "alap",
